@@ -67,6 +67,26 @@ def run_case(case, acc, order):
                                         describe(exp), describe(got)))
                             return
             query('raw', 1.0, A.dtype)
+            # the per-template / per-cluster convenience routes: all spikes of the unit on its channels
+            st = tr['spike_templates'].astype(np.int64)
+            for t in sorted(set(st.tolist())):
+                ids = [i for i in range(ns) if st[i] == t]
+                for name, call in (('get_template_spike_waveforms', lambda: m.get_template_spike_waveforms(t)),
+                                   ('get_cluster_spike_waveforms', lambda: m.get_cluster_spike_waveforms(t))):
+                    try:
+                        chl = [int(c) for c in m.get_template_channels(t)]
+                        got = call()
+                        exp = np.stack([window(A, samples[i], nsw, chl) for i in ids]).astype(np.float64)
+                        ok = isinstance(got, np.ndarray) and got.shape == exp.shape and \
+                            np.array_equal(np.asarray(got, dtype=np.float64), exp)
+                    except Exception as e:
+                        got, ok, exp = e, False, None
+                    acc.step(True, 'D:unit-route')
+                    if not ok:
+                        bad.append(('model-' + name, type(got).__name__ if isinstance(got, BaseException)
+                                    else 'value', {'unit': int(t), 'spikes': ids},
+                                    describe(exp) if exp is not None else None, describe(got)))
+                        break
             for factor in case['factors']:
                 try:
                     m.save_spikes_subset_waveforms(max_n_spikes_per_template=10, sample2unit=factor)
